@@ -197,7 +197,8 @@ class FieldSpec:
         if self.rename is not None:
             in_names = (self.rename,)
         elif self.aliases is not None:
-            in_names = (name, *(alias for alias in self.aliases if alias != name))
+            renamed = tuple(rename_field(name, style) for style in in_rename) if in_rename is not None else ()
+            in_names = tuple(dict.fromkeys((name, *renamed, *self.aliases)))
         elif self.in_names is not None:
             in_names = self.in_names
         else:
